@@ -49,6 +49,7 @@ func (v *Vue) evalInclude(ctx VueContext, node *html.Node, vars map[string]any, 
 	if err != nil {
 		return nil, fmt.Errorf("error parsing %s (included from %s): %w", name, ctx.FormatTemplateChain(), err)
 	}
+	assignSeenAttrs(name, compDom)
 
 	// Validate the :required list of a wrapping <template> up front, so that the error names the component.
 	// The wrapper itself is evaluated, once, together with the rest of the component below.
